@@ -916,9 +916,9 @@ pub(crate) fn render_statement_align_split(
     plan: &FormatPlan,
 ) -> Option<DocPair> {
     let node = find_node_by_id(root, syntax_plan.syntax_id)?;
-    // The split only carries the names, `=` and the values: a statement with a `;` that has to
-    // stay goes through its full renderer instead.
-    if statement_keeps_trailing_semicolon(ctx, &node) {
+    // The split only carries the names, `=` and the values: a statement with comments between
+    // them, or with a `;` that has to stay, goes through its full renderer instead.
+    if node_has_direct_comment_child(&node) || statement_keeps_trailing_semicolon(ctx, &node) {
         return None;
     }
 
